@@ -1,5 +1,5 @@
 #!/bin/bash
-# usage: tools/recheck_seeded.sh <PROP> <seeded-id> [tier]
+# usage: tools/recheck_seeded.sh <PROP> <seeded-id | dir with patch.diff> [tier]
 # Re-runs one check on an archived seeded change (seeded/<id>/patch.diff) in a scratch worktree; no suite, no demo.
 set -u
 P="$1"; ID="$2"; TIER="${3:-quick}"
@@ -8,6 +8,7 @@ WT=/tmp/seedtest-r$$
 git -C /repo worktree add -q --detach "$WT" HEAD || exit 2
 cleanup() { git -C /repo worktree remove --force "$WT" >/dev/null 2>&1; rm -rf /verif/build/alt-$(python3 -c "import hashlib;print(hashlib.sha1('$WT'.encode()).hexdigest()[:8])"); }
 trap cleanup EXIT
-git -C "$WT" apply "/verif/seeded/$ID/patch.diff" 2>/dev/null || git -C "$WT" apply -3 "/verif/seeded/$ID/patch.diff" || { echo "RESULT $ID apply=FAILED"; exit 3; }
+PATCH="/verif/seeded/$ID/patch.diff"; [ -f "$ID/patch.diff" ] && PATCH="$ID/patch.diff"
+git -C "$WT" apply "$PATCH" 2>/dev/null || git -C "$WT" apply -3 "$PATCH" || { echo "RESULT $ID apply=FAILED"; exit 3; }
 OUT=$(cd /verif && VERIF_REPO="$WT" timeout 3000 ./check "$P" --tier "$TIER" 2>&1 | grep -E "^(VIOLATION|OK)" | head -1)
 echo "RESULT $ID [$P: $OUT]"
